@@ -113,6 +113,8 @@ func (w *c05World) check(step, presented, emitted string, proven int, loginUser 
 		w.rep.Violate(fmt.Sprintf("C05/unearned-factor/%s/bits=%#x", step, extra), fmt.Sprintf("session of %q gained factor bits %#x that were not proven for it in this step", osub, extra), c)
 		return
 	}
+	delete(c, "recent_trace")
+	w.rep.Sample("cookie:"+step, 1, c)
 	for name, b := range verifBit {
 		if gained&b != 0 && proven&b != 0 {
 			w.rep.Count("legit_gain_"+name, 1)
